@@ -130,6 +130,8 @@ def fn_source(n, twin=False, decorate=True):
     s = n["slots"]
     name = n["name"]
     lines = []
+    if n["kind"] == "builtin":  # the name is bound to a builtin: nothing memento tracks
+        return "%s = abs\n" % name
     if n.get("factory"):      # made by the shared factory _mk: same code object as its sibling, another default
         return "%s = _mk(%r, %d)\n" % (name, name, s["dflt"])
     if n["kind"] == "mem" and not twin and decorate:
@@ -229,7 +231,7 @@ def module_source(prog, twin=False, order=None):
     """Whole-module source.  `order`: permutation of function names (definition order)."""
     out = [TWIN_HEADER if twin else HEADER]
     modname = (PKG + ".twin") if twin else MOD
-    fns = [n for n in prog["nodes"] if n["kind"] in ("mem", "plain")]
+    fns = [n for n in prog["nodes"] if n["kind"] in ("mem", "plain", "builtin")]
     if order:
         fns = sorted(fns, key=lambda n: order.index(n["name"]) if n["name"] in order else 99)
     for n in prog["nodes"]:
@@ -246,6 +248,9 @@ def module_source(prog, twin=False, order=None):
     for n in prog["nodes"]:
         if n["kind"] == "var" and n.get("late"):
             out.append("%s.%s(%r)\n" % (n["name"], "extend" if isinstance(n["val"], list) else "update", n["val"]))
+    for n in fns:
+        if n.get("post") == "fn" and n["kind"] == "mem" and not twin:
+            out.append("%s = %s.fn\n" % (n["name"], n["name"]))      # the name now holds the plain function underneath
     for n in fns:
         for r in n["refs"]:
             if r["form"] == "alias":
